@@ -32,10 +32,14 @@ func runC11(c *Ctx) {
 	c.Rule("C11.H1", "GATE", "in WriteBlockWithState the call that moves the head is dominated by rawdb.WriteBlock, by state.Commit == nil, by the TrieDB().Commit loop over all three roots that commit returned, and by batch.Write == nil; updateHeadBlock writes the canonical hash before the head marker")
 	c.Min(5)
 	ins := callsTo(wbs, insObj)
-	if len(ins) != 1 {
-		c.Undecided(fname(wbs)+"#head-move", wbs.Pos(), fmt.Sprintf("expected one bc.insert call, found %d", len(ins)))
-	} else {
-		site := ins[0]
+	if len(ins) == 0 {
+		c.Undecided(fname(wbs)+"#head-move", wbs.Pos(), "no bc.insert call found")
+	}
+	for siteNo, site := range ins {
+		sfx := ""
+		if siteNo > 0 {
+			sfx = fmt.Sprintf("@%d", siteNo)
+		}
 		var wb, commit, bw ssa.CallInstruction
 		var trieCommits []ssa.CallInstruction
 		for _, ci := range callInstrs(wbs) {
@@ -56,9 +60,9 @@ func runC11(c *Ctx) {
 		}
 		c.sites += 4
 		ok1 := wb != nil && instrDominates(wb, site)
-		c.Check(fname(wbs)+"#block-before-head", site.Pos(), ok1, ifelse(ok1, "rawdb.WriteBlock dominates the head move", "the head can move to a block whose header/body were not written: a restart finds a head without a block"))
+		c.Check(fname(wbs)+"#block-before-head"+sfx, site.Pos(), ok1, ifelse(ok1, "rawdb.WriteBlock dominates the head move", "the head can move to a block whose header/body were not written: a restart finds a head without a block"))
 		ok2 := commit != nil && gatedByErrNil(site, commit)
-		c.Check(fname(wbs)+"#state-commit-before-head", site.Pos(), ok2, ifelse(ok2, "state.Commit == nil dominates the head move", "the head can move although the state commit failed or has not happened: the head's state is unavailable after a restart"))
+		c.Check(fname(wbs)+"#state-commit-before-head"+sfx, site.Pos(), ok2, ifelse(ok2, "state.Commit == nil dominates the head move", "the head can move although the state commit failed or has not happened: the head's state is unavailable after a restart"))
 		ok3 := false
 		why3 := "no TrieDB().Commit before the head move"
 		if commit != nil && len(trieCommits) > 0 {
@@ -76,9 +80,9 @@ func runC11(c *Ctx) {
 				}
 			}
 		}
-		c.Check(fname(wbs)+"#triedb-commit-all-roots", site.Pos(), ok3, ifelse(ok3, "TrieDB().Commit runs for the state, validator and staking roots before the head move", why3+": after a restart a root named by the head is missing"))
+		c.Check(fname(wbs)+"#triedb-commit-all-roots"+sfx, site.Pos(), ok3, ifelse(ok3, "TrieDB().Commit runs for the state, validator and staking roots before the head move", why3+": after a restart a root named by the head is missing"))
 		ok4 := bw != nil && gatedByErrNil(site, bw)
-		c.Check(fname(wbs)+"#batch-before-head", site.Pos(), ok4, ifelse(ok4, "batch.Write == nil dominates the head move", "the head can move before receipts and transaction lookups are durably written"))
+		c.Check(fname(wbs)+"#batch-before-head"+sfx, site.Pos(), ok4, ifelse(ok4, "batch.Write == nil dominates the head move", "the head can move before receipts and transaction lookups are durably written"))
 	}
 	uhb := w.Fn("core", "BlockChain", "updateHeadBlock")
 	c.sawFunc(fname(uhb))
